@@ -268,6 +268,10 @@ def ops_for(x, level="full"):
             add(Op("eigh(x+x.H)", lambda x: sr.linalg.eigh(_herm(x)), tags=("linalg", "eigh")))
             add(Op("autoray.eigh(x+x.H)", lambda x: ar.do("linalg.eigh", _herm(x)), tags=("linalg", "eigh")))
             add(Op("solve(x+6,b)", lambda x: sr.linalg.solve(_dominant(x), _rhs(x)), tags=("linalg", "solve")))
+        elif n == 2 and x.blocks and all(np.asarray(b).shape[0] == np.asarray(b).shape[1] for b in x.blocks.values()):
+            # any matrix with square stored blocks is a solvable system, whatever its total charge and directions
+            odd_a = bool(x.fermionic) and G.parity(sym_name(x), x.charge) == 1
+            add(Op("solve(x+6,b)[general]", lambda x: sr.linalg.solve(_dominant(x, True), _rhs(x, True)), tags=("linalg", "solve") + (("solve-odd-a",) if odd_a else ())))
     return ops
 
 
@@ -307,22 +311,26 @@ def _herm(x):
     return h.copy_with(blocks=new)
 
 
-def _dominant(x):
+def _dominant(x, general=False):
     a = x.copy()
     if x.fermionic:
         a = a.phase_sync()
     new = {}
     for s, b in a.blocks.items():
         b = np.asarray(b)
-        if s[0] == s[1]:
+        if s[0] == s[1] or general:
             new[s] = b + (np.abs(b).sum() + 1) * np.eye(b.shape[0], dtype=b.dtype)
     return a.copy_with(blocks=new)
 
 
-def _rhs(x):
-    """a valid right-hand side for solve(a, b): a 1-d array on a's row index holding the single sector of its first charge"""
+def _rhs(x, general=False):
+    """a valid right-hand side for solve(a, b): a 1-d array on a's row index holding the single sector of its first charge
+    (general: of the row charge of a's first stored block)"""
     ix = x.indices[0]
     c, d = next(iter(ix.chargemap.items()))
+    if general:
+        c = next(iter(x.blocks))[0]
+        d = ix.chargemap[c]
     dt = np.asarray(next(iter(x.blocks.values()))).dtype if x.blocks else float
     sym = sym_name(x)
     charge = G.signed(sym, c, bool(ix.dual))
